@@ -18,7 +18,8 @@
                  PCancel: deferred cancel()  -> PClose: deferred close(replyChan)
                           -> PHook: deferred OnListenForReplyFinished (if configured) -> PDone
       caller     CRead (receive a reply), CReadClosed (observe the closed channel)  - any number, any time
-      environment ECancel (the cancel func / the parent context / ListenForReplyTimeout: ctx becomes done),
+      environment ECancel (the cancel func / the parent context: the caller's context ends, and with it the
+                  listener's derived one), ETimeout (ListenForReplyTimeout: ONLY the derived context ends),
                   ESubClose (the notifications channel gets closed: subscriber closed, or GoChannel after ctx.Done)
 
     [fixed = false] is the code at the pinned commit, [fixed = true] the D10 repair.
@@ -58,12 +59,13 @@ Inductive lpc :=
 Record cfg := Cfg {
   fixed : bool;        (* D10 repair present *)
   opid : N;            (* params.OperationID *)
-  has_hook : bool      (* config.OnListenForReplyFinished != nil *)
+  has_hook : bool;     (* config.OnListenForReplyFinished != nil *)
+  has_timeout : bool   (* config.ListenForReplyTimeout != nil *)
 }.
 
 Record lstate := LS {
   pc : lpc;
-  ctx_done : bool;
+  ctx_done : bool;               (* the listener's own context (derived from the caller's, with the timeout) has ended *)
   sub_closed : bool;
   inbox : list notif;            (* notifications not yet handed to the listener, in arrival order *)
   buf : list reply;              (* replyChan buffer (capacity 1) *)
@@ -78,15 +80,16 @@ Record lstate := LS {
   pre : list reply;              (* non-final replies the caller received while ctx was not done *)
   seen_closed : bool;            (* the caller observed the closed channel *)
   closes : nat;
-  hooks : nat
+  hooks : nat;
+  cctx_done : bool               (* the CALLER's context has ended (cancel func / parent); implies ctx_done *)
 }.
 
 Definition linit (stream : list notif) : lstate :=
-  LS PLoop false false stream [] false false [] [] [] [] [] [] false 0 0.
+  LS PLoop false false stream [] false false [] [] [] [] [] [] false 0 0 false.
 
 Inductive label :=
 | LRecv | LRecvClosed | LCtx | LSend | LSkip | LCancel | LClose | LHook
-| CRead | CReadClosed | ECancel | ESubClose.
+| CRead | CReadClosed | ECancel | ETimeout | ESubClose.
 
 Definition llabel (l : label) : bool :=
   match l with
@@ -114,7 +117,7 @@ Section Listen.
 
   Definition set_pc (s : lstate) (p : lpc) : lstate :=
     LS p (ctx_done s) (sub_closed s) (inbox s) (buf s) (chan_closed s) (panicked s)
-       (consumed s) (acks s) (hist s) (finals s) (got s) (pre s) (seen_closed s) (closes s) (hooks s).
+       (consumed s) (acks s) (hist s) (finals s) (got s) (pre s) (seen_closed s) (closes s) (hooks s) (cctx_done s).
 
   Definition lstep (c : cfg) (s : lstate) (l : label) : option lstate :=
     match l with
@@ -124,7 +127,7 @@ Section Listen.
             Some (LS (if own c n then PSend (reply_of n) else PLoop)
                      (ctx_done s) (sub_closed s) rest (buf s) (chan_closed s) (panicked s)
                      (consumed s ++ [n]) (acks s ++ [n_id n]) (hist s) (finals s) (got s) (pre s)
-                     (seen_closed s) (closes s) (hooks s))
+                     (seen_closed s) (closes s) (hooks s) (cctx_done s))
         | _, _, _ => None
         end
     | LRecvClosed =>
@@ -140,7 +143,7 @@ Section Listen.
               if fixed c then
                 Some (LS PLoop (ctx_done s) (sub_closed s) (inbox s) (buf s) (chan_closed s) (panicked s)
                          (consumed s) (acks s) (hist s ++ [(r, false)]) (finals s) (got s) (pre s)
-                         (seen_closed s) (closes s) (hooks s))
+                         (seen_closed s) (closes s) (hooks s) (cctx_done s))
               else None
           | _ => None
           end
@@ -150,11 +153,11 @@ Section Listen.
         | PSend r, [] =>
             Some (LS PLoop (ctx_done s) (sub_closed s) (inbox s) [r] (chan_closed s) (panicked s)
                      (consumed s) (acks s) (hist s ++ [(r, true)]) (finals s) (got s) (pre s)
-                     (seen_closed s) (closes s) (hooks s))
+                     (seen_closed s) (closes s) (hooks s) (cctx_done s))
         | PFinal r, [] =>
             Some (LS PCancel (ctx_done s) (sub_closed s) (inbox s) [r] (chan_closed s) (panicked s)
                      (consumed s) (acks s) (hist s) (finals s ++ [r]) (got s) (pre s)
-                     (seen_closed s) (closes s) (hooks s))
+                     (seen_closed s) (closes s) (hooks s) (cctx_done s))
         | _, _ => None
         end
     | LSkip =>
@@ -167,7 +170,7 @@ Section Listen.
         | PCancel =>
             Some (LS PClose true (sub_closed s) (inbox s) (buf s) (chan_closed s) (panicked s)
                      (consumed s) (acks s) (hist s) (finals s) (got s) (pre s)
-                     (seen_closed s) (closes s) (hooks s))
+                     (seen_closed s) (closes s) (hooks s) (cctx_done s))
         | _ => None
         end
     | LClose =>
@@ -176,7 +179,7 @@ Section Listen.
             Some (LS PHook (ctx_done s) (sub_closed s) (inbox s) (buf s) true
                      (panicked s || chan_closed s)       (* close of a closed channel panics *)
                      (consumed s) (acks s) (hist s) (finals s) (got s) (pre s)
-                     (seen_closed s) (S (closes s)) (hooks s))
+                     (seen_closed s) (S (closes s)) (hooks s) (cctx_done s))
         | _ => None
         end
     | LHook =>
@@ -184,7 +187,7 @@ Section Listen.
         | PHook =>
             Some (LS PDone (ctx_done s) (sub_closed s) (inbox s) (buf s) (chan_closed s) (panicked s)
                      (consumed s) (acks s) (hist s) (finals s) (got s) (pre s)
-                     (seen_closed s) (closes s) (if has_hook c then S (hooks s) else hooks s))
+                     (seen_closed s) (closes s) (if has_hook c then S (hooks s) else hooks s) (cctx_done s))
         | _ => None
         end
     | CRead =>
@@ -193,7 +196,7 @@ Section Listen.
             Some (LS (pc s) (ctx_done s) (sub_closed s) (inbox s) b (chan_closed s) (panicked s)
                      (consumed s) (acks s) (hist s) (finals s) (got s ++ [r])
                      (if ctx_done s || is_final r then pre s else pre s ++ [r])
-                     (seen_closed s) (closes s) (hooks s))
+                     (seen_closed s) (closes s) (hooks s) (cctx_done s))
         | [] => None
         end
     | CReadClosed =>
@@ -201,17 +204,23 @@ Section Listen.
         | [], true =>
             Some (LS (pc s) (ctx_done s) (sub_closed s) (inbox s) (buf s) (chan_closed s) (panicked s)
                      (consumed s) (acks s) (hist s) (finals s) (got s) (pre s)
-                     true (closes s) (hooks s))
+                     true (closes s) (hooks s) (cctx_done s))
         | _, _ => None
         end
-    | ECancel =>
+    | ECancel =>     (* the caller's context ends: the derived context ends with it *)
         Some (LS (pc s) true (sub_closed s) (inbox s) (buf s) (chan_closed s) (panicked s)
                  (consumed s) (acks s) (hist s) (finals s) (got s) (pre s)
-                 (seen_closed s) (closes s) (hooks s))
+                 (seen_closed s) (closes s) (hooks s) true)
+    | ETimeout =>    (* ListenForReplyTimeout passes: only the derived context ends, the caller's stays alive *)
+        if has_timeout c then
+          Some (LS (pc s) true (sub_closed s) (inbox s) (buf s) (chan_closed s) (panicked s)
+                   (consumed s) (acks s) (hist s) (finals s) (got s) (pre s)
+                   (seen_closed s) (closes s) (hooks s) (cctx_done s))
+        else None
     | ESubClose =>
         Some (LS (pc s) (ctx_done s) true (inbox s) (buf s) (chan_closed s) (panicked s)
                  (consumed s) (acks s) (hist s) (finals s) (got s) (pre s)
-                 (seen_closed s) (closes s) (hooks s))
+                 (seen_closed s) (closes s) (hooks s) (cctx_done s))
     end.
 
   (** a schedule is a list of labels; a label that is not enabled is skipped *)
